@@ -90,6 +90,7 @@ type Term struct {
 	// Range of an Int-sorted variable (vIntRange), used for digit decomposition.
 	HasRng bool
 	Lo, Hi int64
+	NonDigit bool // string known to contain a non-digit character (exponent renderings)
 	Lower   bool // string variable over an alphabet without A-Z (to_lower is the identity)
 	strFlag int8 // 0 unknown, 1 mentions strings, 2 does not
 }
@@ -280,6 +281,21 @@ func tEq(a, b *Term) *Term {
 		return newTerm("fp.eq", SBool, a, b)
 	}
 	if a.Sort == SStr {
+		if a.Op == "ite" {
+			return tIte(a.Args[0], tEq(a.Args[1], b), tEq(a.Args[2], b))
+		}
+		if b.Op == "ite" {
+			return tIte(b.Args[0], tEq(a, b.Args[1]), tEq(a, b.Args[2]))
+		}
+		if a.Op == "str.from_int" && b.Op == "str.from_int" {
+			x, y := a.Args[0], b.Args[0]
+			if x.HasRng && x.Lo >= 0 && y.HasRng && y.Lo >= 0 {
+				return tEq(x, y) // decimal rendering is injective on non-negative integers
+			}
+		}
+		if (a.NonDigit && digitsTerm(b)) || (b.NonDigit && digitsTerm(a)) {
+			return tFalse
+		}
 		if hasStructure(a) && hasStructure(b) && !a.IsConst() && !b.IsConst() {
 			pa, pb := strPartsOf(a), strPartsOf(b)
 			if len(pa) == 1 && len(pb) == 1 && pa[0].v == nil && pb[0].v == nil {
@@ -528,23 +544,62 @@ func tIntBin(op string, a, b *Term, f func(x, y int64) (int64, bool)) *Term {
 	}
 	return newTerm(op, SInt, a, b)
 }
-func tIntAdd(a, b *Term) *Term {
-	return tIntBin("+", a, b, func(x, y int64) (int64, bool) {
-		r := x + y
-		if (r > x) == (y > 0) {
-			return r, true
+// addConst: x + c with nested constant offsets merged and ranges propagated.
+func addConst(x *Term, c int64) *Term {
+	if c == 0 {
+		return x
+	}
+	if v, ok := x.IntVal(); ok {
+		r := v + c
+		if (r > v) == (c > 0) {
+			return mkInt(r)
 		}
-		return 0, false
-	})
+	}
+	base, off := x, int64(0)
+	if x.Op == "+" && len(x.Args) == 2 {
+		if k, ok := x.Args[1].IntVal(); ok {
+			base, off = x.Args[0], k
+		}
+	}
+	tot := off + c
+	if (tot > off) != (c > 0) {
+		return newTerm("+", SInt, x, mkInt(c)) // overflow of the offset: keep as is
+	}
+	var r *Term
+	if tot == 0 {
+		return base
+	}
+	r = newTerm("+", SInt, base, mkInt(tot))
+	if base.HasRng {
+		lo, hi := base.Lo+tot, base.Hi+tot
+		if (lo > base.Lo) == (tot > 0) && (hi > base.Hi) == (tot > 0) {
+			r.HasRng, r.Lo, r.Hi = true, lo, hi
+		}
+	}
+	return r
+}
+
+func tIntAdd(a, b *Term) *Term {
+	if y, ok := b.IntVal(); ok {
+		return addConst(a, y)
+	}
+	if x, ok := a.IntVal(); ok {
+		return addConst(b, x)
+	}
+	return newTerm("+", SInt, a, b)
 }
 func tIntSub(a, b *Term) *Term {
-	return tIntBin("-", a, b, func(x, y int64) (int64, bool) {
-		r := x - y
-		if (r < x) == (y > 0) {
-			return r, true
-		}
-		return 0, false
-	})
+	if y, ok := b.IntVal(); ok && y != math.MinInt64 {
+		return addConst(a, -y)
+	}
+	if a == b {
+		return mkInt(0)
+	}
+	r := newTerm("-", SInt, a, b)
+	if x, ok := a.IntVal(); ok && x == 0 && b.HasRng && b.Lo != math.MinInt64 {
+		r.HasRng, r.Lo, r.Hi = true, -b.Hi, -b.Lo
+	}
+	return r
 }
 func tIntMul(a, b *Term) *Term {
 	return tIntBin("*", a, b, func(x, y int64) (int64, bool) {
@@ -1106,4 +1161,27 @@ func (t *Term) mentionsStrings() bool {
 		t.strFlag = 2
 	}
 	return r
+}
+
+// digitsTerm: the term renders as an optional '-' followed by decimal digits only.
+func digitsTerm(x *Term) bool {
+	switch x.Op {
+	case "str.from_int":
+		return true
+	case "var":
+		n := x.K.(string)
+		return len(n) > 5 && n[:5] == "itoa!"
+	case "const":
+		s := x.K.(string)
+		if s == "" {
+			return false
+		}
+		for i := 0; i < len(s); i++ {
+			if !(s[i] >= '0' && s[i] <= '9') && !(i == 0 && s[i] == '-') {
+				return false
+			}
+		}
+		return true
+	}
+	return false
 }
